@@ -734,8 +734,10 @@ def main_check(prop_id, tier, seed, replay=None):
     ev = {'property_id': prop_id, 'tier': tier, 'seed': seed, 'level': 'proof', 'coverage': coverage,
           'assumptions': getattr(mod, 'ASSUMPTIONS', []), 'wall_s': round(time.time() - t0, 2),
           'violations': 0 if exit_code == 0 else max(1, len(real))}
-    os.makedirs(os.path.join(ROOT, 'evidence'), exist_ok=True)
-    with open(os.path.join(ROOT, 'evidence', '%s.json' % prop_id), 'w') as f:
+    # evidence is only ever written for runs against /repo itself; runs against another tree (mutation testing) go to build/
+    evdir = os.path.join(ROOT, 'evidence') if os.path.realpath(REPO) == '/repo' else os.path.join(BUILD, 'evidence-other-tree')
+    os.makedirs(evdir, exist_ok=True)
+    with open(os.path.join(evdir, '%s.json' % prop_id), 'w') as f:
         json.dump(ev, f, indent=1, default=str)
     print('%s tier=%s seed=%d obligations=%d/%d cases=%d in_domain=%d nontrivial=%d disagreements=%d oracle_failures=%d wall=%.1fs -> %s'
           % (prop_id, tier, seed, coverage['discharged'], coverage['obligations'], len(recs), in_domain, len(nontriv),
